@@ -16,6 +16,10 @@ pub struct Violation {
     /// short, stable name of the violated monitor clause
     pub clause: &'static str,
     pub msg: String,
+    /// a pure state predicate (wake-up invariant, is_terminated, allocation count): it neither
+    /// changes nor invalidates any monitor's ghost state, so exploration may continue behind it
+    /// when it belongs to a property other than the one being checked
+    pub pure: bool,
 }
 
 #[derive(Default)]
@@ -30,7 +34,11 @@ pub struct StepOut {
 
 impl StepOut {
     pub fn v(&mut self, prop: &'static str, clause: &'static str, msg: String) {
-        self.viol.push(Violation { prop, clause, msg });
+        self.viol.push(Violation { prop, clause, msg, pure: false });
+    }
+    /// a violated pure state predicate (see `Violation::pure`)
+    pub fn p(&mut self, prop: &'static str, clause: &'static str, msg: String) {
+        self.viol.push(Violation { prop, clause, msg, pure: true });
     }
     pub fn o(&mut self, s: &str) {
         if !self.obs.is_empty() {
@@ -166,6 +174,7 @@ pub struct RunResult {
     pub other_props: BTreeMap<String, u64>,
     pub outcomes: u64,
     pub truncated_by_corruption: u64,
+    pub truncated_by_other_property: u64,
     pub samples: Vec<Vec<String>>,
     pub wall_s: f64,
     pub per_depth: Vec<u64>,
@@ -183,6 +192,7 @@ impl RunResult {
             "cap_hit": self.cap_hit,
             "distinct_outcomes": self.outcomes,
             "truncated_by_corruption": self.truncated_by_corruption,
+            "truncated_by_other_property": self.truncated_by_other_property,
             "violations_other_properties": self.other_props,
             "states_per_depth": self.per_depth,
             "wall_s": (self.wall_s * 1000.0).round() / 1000.0,
@@ -232,6 +242,7 @@ struct WorkerOut<Op> {
     finish_runs: u64,
     outcomes: HashSet<String>,
     truncated: u64,
+    truncated_other: u64,
 }
 
 fn opname<Op: Debug>(op: &Op) -> String {
@@ -283,7 +294,7 @@ pub fn explore<S: System>(cfg: &Cfg, opts: &Opts) -> RunResult {
                 let outs = &outs;
                 let in_scope = &in_scope;
                 sc.spawn(move || {
-                    let mut w = WorkerOut { next: vec![], viol: vec![], transitions: 0, finish_runs: 0, outcomes: HashSet::new(), truncated: 0 };
+                    let mut w = WorkerOut { next: vec![], viol: vec![], transitions: 0, finish_runs: 0, outcomes: HashSet::new(), truncated: 0, truncated_other: 0 };
                     let mut local: HashSet<Vec<u8>> = HashSet::new();
                     loop {
                         let i = idx.fetch_add(1, Ordering::Relaxed);
@@ -304,16 +315,23 @@ pub fn explore<S: System>(cfg: &Cfg, opts: &Opts) -> RunResult {
                             for v in out.viol {
                                 let mut hh = h.clone();
                                 hh.truncate(h.len());
-                                w.viol.push((Violation { prop: v.prop, clause: v.clause, msg: format!("[at end of history] {}", v.msg) }, hh));
+                                w.viol.push((Violation { prop: v.prop, clause: v.clause, msg: format!("[at end of history] {}", v.msg), pure: v.pure }, hh));
                             }
                         } else {
-                            drop(base);
+                            let _ = std::panic::catch_unwind(std::panic::AssertUnwindSafe(|| drop(base)));
+                            let _ = harness::take_teardown_panic();
                         }
                         for op in ops {
                             note_start(wid, i, h, Some(&op), cfg);
                             let mut s = build::<S>(cfg, h);
                             let mut out = StepOut::default();
-                            s.apply(op, &mut out);
+                            if let Err(e) = std::panic::catch_unwind(std::panic::AssertUnwindSafe(|| s.apply(op, &mut out))) {
+                                // a panic that escaped the per-call wrapper: raised by a read-only hook
+                                // walking a corrupted structure (debug assertion) or by the harness itself
+                                let msg = e.downcast_ref::<&str>().map(|s| s.to_string()).or_else(|| e.downcast_ref::<String>().cloned()).unwrap_or_default();
+                                out.v("C01", "panic", format!("panic while inspecting the primitive after the operation (corrupted structure?): {}", msg));
+                                out.corrupt = true;
+                            }
                             w.transitions += 1;
                             let mut hh = h.clone();
                             hh.push(op);
@@ -322,17 +340,28 @@ pub fn explore<S: System>(cfg: &Cfg, opts: &Opts) -> RunResult {
                             if out.corrupt {
                                 w.truncated += 1;
                             }
+                            // a successor that violates ANY monitor is not expanded: the ghost state of
+                            // the other monitors is no longer trustworthy behind it, and reporting a
+                            // follow-up symptom under another property id would be a wrong attribution
+                            // (pure state predicates of other properties - wake-up invariants,
+                            // is_terminated, allocation counts - leave every ghost state intact and do
+                            // not stop the search: otherwise e.g. a fair-mutex change that first wakes
+                            // the wrong waiter (C03) and only then lets it overtake (C04) would never
+                            // be reported by the C04 check)
+                            if out.viol.iter().any(|v| in_scope(v.prop)) {
+                                stop = true;
+                            } else if out.viol.iter().any(|v| !v.pure) {
+                                stop = true;
+                                w.truncated_other += 1;
+                            }
                             for v in out.viol {
-                                if in_scope(v.prop) {
-                                    stop = true;
-                                }
                                 w.viol.push((v, hh.clone()));
                             }
                             if !stop {
                                 let f = s.fingerprint();
                                 if !local.contains(&f) {
                                     local.insert(f.clone());
-                                    w.next.push((f, hh));
+                                    w.next.push((f, hh.clone()));
                                 }
                             }
                             if out.corrupt {
@@ -340,6 +369,17 @@ pub fn explore<S: System>(cfg: &Cfg, opts: &Opts) -> RunResult {
                                 // dangling nodes (e.g. a releaser waking a freed waiter):
                                 // leak it instead
                                 std::mem::forget(s);
+                            } else {
+                                // dropping all remaining futures and then the primitive is itself a
+                                // contract-respecting continuation of the history
+                                let r = std::panic::catch_unwind(std::panic::AssertUnwindSafe(|| drop(s)));
+                                let msg = match r {
+                                    Err(e) => Some(e.downcast_ref::<&str>().map(|s| s.to_string()).or_else(|| e.downcast_ref::<String>().cloned()).unwrap_or_default()),
+                                    Ok(()) => harness::take_teardown_panic(),
+                                };
+                                if let Some(msg) = msg {
+                                    w.viol.push((Violation { prop: "C01", clause: "panic-at-teardown", msg: format!("dropping the remaining futures and the primitive at the end of this history panicked: {}", msg), pure: false }, hh.clone()));
+                                }
                             }
                         }
                     }
@@ -357,6 +397,7 @@ pub fn explore<S: System>(cfg: &Cfg, opts: &Opts) -> RunResult {
             res.transitions += w.transitions;
             res.finish_runs += w.finish_runs;
             res.truncated_by_corruption += w.truncated;
+            res.truncated_by_other_property += w.truncated_other;
             for o in w.outcomes.drain() {
                 outcomes.insert(o);
             }
